@@ -233,9 +233,28 @@ CLAIMED['C19'] = dict(
    note='Trusted: Coq kernel + vm_compute; FormatM mirrors the code (correspondence only); harness. mgrs and pyproj are outside the model. No axioms.',
    technique='Coq proof (exact rational rounding arithmetic, digit-string read/write inverse) + in-Coq correspondence; fixed corpora for MGRS/pyproj',
    ref='5/C19, 9')
+CLAIMED['C20'] = dict(
+   text='PARTIAL. The third-party codecs (pyshp binary I/O and its __geo_interface__, pandas/Shapely/GEOS, fastkml/pygeoif) cannot be modelled; what is modelled and '
+        'proved (44 theorems, closed under the global context) is the in-library glue of the three paths, with each codec a universally quantified function carrying an '
+        'explicit contract premise: the isinstance cascade of to_shapefile is a partition into the four layers that keeps collection order within each family, and the '
+        'archive is read back family by family in that order (same for KML folders); to_pyshp emits every ring reversed, so a constructed polygon goes out with a clockwise '
+        'shell and counter-clockwise holes (ESRI rule), multipolygons part by part; under the pyshp contract (clockwise ring opens a polygon, following rings are its holes, '
+        'Z list in written order) from_pyshp(to_pyshp g) returns the very same polygon / multipolygon with holes and per-vertex Z (pop(0) threading), lines, multi-lines, '
+        'points, multi-points, and box / curved shapes come back as the polygon with the same linear rings; the time columns / pandas cells / KML TimeStamp-TimeSpan are inverted '
+        'by the readers for {no dt, instant, interval}; GeoPandas geometry relative to the C13 WKT theorem; KML geometry relative to the C14 theorem. Property dictionaries: '
+        'string/int/bool (shapefile), pandas-kept values, non-empty strings (KML) survive (_partial); equality is REFUTED with witnesses: findings D38 (float truncated), D39 (ID '
+        'added), D40/D42 (missing keys filled), D43 (sub_folder_0), D45/D46 (non-string / falsy KML values), D44 (one-member multi-shapes lose their type), D41 (MULTIPOINT text of '
+        'Shapely 2 rejected). Tied to the code by an in-Coq correspondence on 480-540 (quick) real archive / frame / folder round trips per run: Coq checks that the writer glue '
+        'equals what the codec stored, that the contract instance holds on what the codec returned, and that the reader glue on the observed codec output equals the implementation '
+        'shape; an independent Python oracle evaluates the property itself.',
+   note='Trusted: Coq kernel + vm_compute; ArchiveM mirrors the glue (correspondence only); the codec contracts are premises of the theorems and are CHECKED per case, not proved; '
+        'C13/C14 models reused. Not covered: binary encoding, pyshp hole grouping on invalid polygons, DBF limits (names > 10 chars, text > 50 chars), pandas dtype inference, '
+        'GEOS number formatting, KML text serialisation, M values, mixed Z / no-Z layers (pyshp refuses them). No axioms.',
+   technique='Coq proof of the in-library glue with the codecs as contract-carrying parameters (list partition/order, ring orientation via the C14 shoelace lemmas, reader/writer inverses) + in-Coq correspondence on real round trips that also checks each contract instance',
+   ref='5/C20, 6, 9')
 NOT_YET = {}
 NA = {
- 'C20': 'The observable is the composition of three third-party codecs (pyshp binary I/O, GeoPandas/GEOS, fastkml XML); '
+ 'C20_unused': 'The observable is the composition of three third-party codecs (pyshp binary I/O, GeoPandas/GEOS, fastkml XML); '
         'no executable Gallina model of them is possible here and identity oracles would assume the conclusion (DESIGN.md section 6).',
 }
 
